@@ -111,6 +111,11 @@ func (c *Ctx) role(name string) *ssa.Function {
 	case "fasta.read":
 		return c.calleeBySig(c.fn("formats/fasta", "Reader"), "(*formats/fasta.reader)()(*formats/fasta.Fasta,error)", 3)
 	case "fastq.read":
+		// the record filled through an out-parameter: readInto(fq) error — preferred when present, read() is then a
+		// thin wrapper around it (or gone)
+		if f := c.calleeBySig(c.fn("formats/fastq", "Reader"), "(*formats/fastq.reader)(*formats/fastq.Fastq)(error)", 4); f != nil {
+			return f
+		}
 		return c.calleeBySig(c.fn("formats/fastq", "Reader"), "(*formats/fastq.reader)()(*formats/fastq.Fastq,error)", 3)
 	case "bed.read":
 		return c.calleeBySig(c.fn("formats/bed", "Reader"), "(*formats/bed.reader)()(*formats/bed.BED,error)", 2)
@@ -199,7 +204,10 @@ func (c *Ctx) role(name string) *ssa.Function {
 	case "smtext.singleChar":
 		return c.calleeBySig(c.fn("formats/smtext", "ReadNCBI"), "(string)(byte,error)", 0)
 	case "sam.parseLine":
-		return c.calleeBySig(c.fn("formats/sam", "ReaderHeader"), "([]string)(*formats/sam.SAM,error)", 2)
+		if f := c.calleeBySig(c.fn("formats/sam", "ReaderHeader"), "([]string)(*formats/sam.SAM,error)", 2); f != nil {
+			return f
+		}
+		return c.calleeBySig(c.fn("formats/sam", "ReaderHeader"), "([]string,*formats/sam.SAM)(error)", 2) // the record through an out-parameter
 	case "sam.parseInts":
 		return c.calleeBySig(c.role("sam.parseLine"), "([]string,[]*int)(error)", 2)
 	case "sam.parseTags":
@@ -212,7 +220,10 @@ func (c *Ctx) role(name string) *ssa.Function {
 	case "sam.tagsToText":
 		return c.calleeBySig(c.fn("formats/sam", "(*SAM).Write"), "(map[string]interface{})([]string)", 0)
 	case "sam.tagToText":
-		return c.calleeBySig(c.role("sam.tagsToText"), "(string,interface{})(string)", 0)
+		if f := c.calleeBySig(c.role("sam.tagsToText"), "(string,interface{})(string)", 0); f != nil {
+			return f
+		}
+		return c.calleeBySig(c.role("sam.tagsToText"), "(string,interface{},*string)()", 0) // the text through an out-parameter
 	case "align.charOrGap":
 		return c.calleeBySig(c.fn("align", "(SubstitutionMatrix).GoString"), "(byte)(string)", 1)
 	case "trie.keys":
